@@ -59,6 +59,7 @@ Definition enc_ev (tag : peer -> N) (e : uev) : list N :=
   | UClosed p => [2; p; 0]
   | UFail p e => [3; p; e]
   | UNotif p => [4; p; tag p]
+  | UClosedT p k => [5; p; k]   (* never part of a trace: the handle passes it on as UClosed or ignores it *)
   end.
 Definition tag_of (x : option N) : N := match x with Some k => k + 1 | None => 0 end.
 Definition enc_call (c : call) : list N :=
@@ -269,7 +270,7 @@ Definition pobs_eqb (a b : pobs) : bool :=
   Bool.eqb (o_hopen a) (o_hopen b) && Bool.eqb (o_hval a) (o_hval b).
 
 Definition ev_peer (e : uev) : peer :=
-  match e with UValidate p | UOpened p _ | UClosed p | UFail p _ | UNotif p => p end.
+  match e with UValidate p | UOpened p _ | UClosed p | UFail p _ | UNotif p | UClosedT p _ => p end.
 Definition call_peer (c : call) : peer :=
   match c with CDial p | COpen p _ | CForce p | CRet p _ | CWire p _ _ => p end.
 
@@ -307,7 +308,6 @@ Definition has_validate (p : peer) (l : list uev) : bool :=
 Record omem := mkOmem {
   m_prev : list pobs;
   m_opened : peer -> bool;              (* user view: last of Opened/Closed was Opened *)
-  m_gated : peer -> bool;               (* a Connection task of the peer may be slow to close *)
   m_req : list (sid * peer);            (* open_substream requests not answered by the case *)
   m_cnt : N;                            (* NotificationStreamOpened events so far = stream periods *)
   m_sink : peer -> option N;            (* the period whose sink the handle holds for the peer *)
@@ -315,36 +315,37 @@ Record omem := mkOmem {
 }.
 
 Definition omem0 : omem :=
-  mkOmem [absent; absent; absent] (fun _ => false) (fun _ => false) [] 0 (fun _ => None) (fun _ => None).
+  mkOmem [absent; absent; absent] (fun _ => false) [] 0 (fun _ => None) (fun _ => None).
 
-(* failures: bit 0 = outside every known class, bit 1 = class 1 (slow close), bit 3 = class 3 (user
-   Reject drops the open request); class 2 (failed substream id adopted by the next open request) was
-   repaired in the code and is an ordinary violation now *)
+(* failures: bit 0 = outside every known class, bit 3 = class 3 (user Reject drops the open request);
+   classes 1 (slow close: Closed reported after the next Opened) and 2 (failed substream id adopted by the
+   next open request) were repaired in the code and are ordinary violations now *)
 Definition F_GEN : N := 1.
-Definition F_SLOW : N := 2.
 Definition F_REJ : N := 8.
 
-(* grammar of the user-visible events of one step, in order *)
-Fixpoint grammar (opened : peer -> bool) (gated : peer -> bool) (l : list uev) : (peer -> bool) * N :=
+(* grammar of the user-visible events of one step, in order: Opened and Closed alternate per peer, no
+   OpenFailure and every NotificationReceived between an Opened and its Closed, whatever the Connection
+   tasks do and however slowly they close *)
+Fixpoint grammar (opened : peer -> bool) (l : list uev) : (peer -> bool) * N :=
   match l with
   | [] => (opened, 0)
   | e :: t =>
-      let bad p := if gated p then F_SLOW else F_GEN in
       match e with
       | UOpened p _ =>
-          let '(o', f) := grammar (upd opened p true) gated t in
-          (o', N.lor (if opened p then bad p else 0) f)
+          let '(o', f) := grammar (upd opened p true) t in
+          (o', N.lor (if opened p then F_GEN else 0) f)
       | UClosed p =>
-          let '(o', f) := grammar (upd opened p false) gated t in
-          (o', N.lor (if opened p then 0 else bad p) f)
+          let '(o', f) := grammar (upd opened p false) t in
+          (o', N.lor (if opened p then 0 else F_GEN) f)
       | UFail p _ =>
-          let '(o', f) := grammar opened gated t in
-          (o', N.lor (if opened p then bad p else 0) f)
+          let '(o', f) := grammar opened t in
+          (o', N.lor (if opened p then F_GEN else 0) f)
       | UNotif p =>
           (* notifications are delivered only between Opened and Closed *)
-          let '(o', f) := grammar opened gated t in
-          (o', N.lor (if opened p then 0 else bad p) f)
-      | UValidate _ => grammar opened gated t
+          let '(o', f) := grammar opened t in
+          (o', N.lor (if opened p then 0 else F_GEN) f)
+      | UValidate _ => grammar opened t
+      | UClosedT _ _ => let '(o', f) := grammar opened t in (o', N.lor F_GEN f)   (* not a user event *)
       end
   end.
 
@@ -376,15 +377,6 @@ Definition check_step (c : cfg) (m : omem) (o : op) (x : sobs) : omem * N :=
   let p := op_peer o in
   let pre := nth_p (m_prev m) p in
   let post := nth_p (o_peers x) p in
-  (* gating as dictated by the case *)
-  let gated :=
-    match o with
-    | Gate q => upd (m_gated m) q true
-    | TaskDie q true | NotifyDie q true => upd (m_gated m) q true
-    | Release q => upd (m_gated m) q false
-    | _ => m_gated m
-    end in
-  let gated_or := fun q => m_gated m q || gated q in
   (* requests *)
   let req0 :=
     match o with
@@ -399,7 +391,7 @@ Definition check_step (c : cfg) (m : omem) (o : op) (x : sobs) : omem * N :=
     forallb (fun q => (q =? p) || pobs_eqb (nth_p (m_prev m) q) (nth_p (o_peers x) q)) peers_l &&
     forallb (fun e => ev_peer e =? p) (o_ev x) && forallb (fun cl => call_peer cl =? p) (o_calls x) in
   (* 2. event grammar *)
-  let '(opened', fg) := grammar (m_opened m) gated_or (o_ev x) in
+  let '(opened', fg) := grammar (m_opened m) (o_ev x) in
   (* 3. inbound streams only after an accept *)
   let acc :=
     (negb (has_opened p (o_ev x)) || in_accepted (o_ps pre)) &&
@@ -410,15 +402,11 @@ Definition check_step (c : cfg) (m : omem) (o : op) (x : sobs) : omem * N :=
      | _, _ => false
      end) in
   (* 4. "when the connection to a peer is lost an open stream is reported closed" (also when the user
-     closes it). The report may be late only while the case keeps the Connection task's substream
-     close blocked (Gate / gated TaskDie: the environment of finding class 1); then it is due when the
-     case releases the close: after `Release p` the user may still see p as opened only if a stream
-     is really open. *)
+     closes it): in the same step, however long the Connection task takes to close its substreams *)
   let cl :=
     match o with
-    | ConnClosed _ => negb (is_open (o_ps pre)) || has_closed p (o_ev x) || gated_or p
-    | CmdClose _ => negb (is_open (o_ps pre) && o_hopen pre) || has_closed p (o_ev x) || gated_or p
-    | Release _ => negb (opened' p) || is_open (o_ps post)
+    | ConnClosed _ => negb (is_open (o_ps pre)) || has_closed p (o_ev x)
+    | CmdClose _ => negb (is_open (o_ps pre) && o_hopen pre) || has_closed p (o_ev x)
     | _ => true
     end in
   (* 5. "a request to open a stream to a connected peer with no negotiation in progress is answered":
@@ -477,16 +465,16 @@ Definition check_step (c : cfg) (m : omem) (o : op) (x : sobs) : omem * N :=
     end in
   let '(cnt', sink') := sinks (m_cnt m) (m_sink m) (o_ev x) in
   let nt := ntags_ok (m_cnt m) (m_sink m) (o_evt x) in
-  (mkOmem (o_peers x) opened' gated req cnt' sink' usink',
+  (mkOmem (o_peers x) opened' req cnt' sink' usink',
    N.lor (flag (iso && acc && cl && ans && send && nt && (leave || rej)) F_GEN)
          (N.lor (flag (leave || negb rej) F_REJ) (N.lor fg owed))).
 
 (* a SleepAll step is a batch of timer events for several peers: only the event grammar and the
    bookkeeping of the oracle are applied to it *)
 Definition check_batch (m : omem) (x : sobs) : omem * N :=
-  let '(opened', fg) := grammar (m_opened m) (m_gated m) (o_ev x) in
+  let '(opened', fg) := grammar (m_opened m) (o_ev x) in
   let '(cnt', sink') := sinks (m_cnt m) (m_sink m) (o_ev x) in
-  (mkOmem (o_peers x) opened' (m_gated m) (m_req m) cnt' sink' (m_usink m),
+  (mkOmem (o_peers x) opened' (m_req m) cnt' sink' (m_usink m),
    N.lor fg (flag (ntags_ok (m_cnt m) (m_sink m) (o_evt x)) F_GEN)).
 
 Fixpoint check_steps (c : cfg) (m : omem) (ops : list gop) (tr : list sobs) : N :=
@@ -544,18 +532,12 @@ Fixpoint p_lsteps (fuel : nat) : parser (list lobs * bool) :=
         end
     end.
 
-Fixpoint lcheck (cap : N) (opened gated : peer -> bool) (cnt : N) (sk : peer -> option N) (ops : list lop) (tr : list lobs) : N :=
+Fixpoint lcheck (cap : N) (opened : peer -> bool) (cnt : N) (sk : peer -> option N) (ops : list lop) (tr : list lobs) : N :=
   match ops, tr with
   | g :: ops', x :: tr' =>
-      let gated' :=
-        match g with
-        | LOp (Gate q) | LOp (TaskDie q true) | LOp (NotifyDie q true) => upd gated q true
-        | _ => gated   (* deliveries lag behind: a slow close earlier in the case may show up any time later *)
-        end in
-      let gg := fun q => gated q || gated' q in
-      let '(opened', fg) := grammar opened gg (lo_ev x) in
+      let '(opened', fg) := grammar opened (lo_ev x) in
       let '(cnt', sk') := sinks cnt sk (lo_ev x) in
-      N.lor (N.lor fg (flag ((lo_q x <=? cap) && ntags_ok cnt sk (lo_evt x)) F_GEN)) (lcheck cap opened' gated' cnt' sk' ops' tr')
+      N.lor (N.lor fg (flag ((lo_q x <=? cap) && ntags_ok cnt sk (lo_evt x)) F_GEN)) (lcheck cap opened' cnt' sk' ops' tr')
   | _, _ => 0
   end.
 
@@ -566,7 +548,7 @@ Definition lverdict (case trace : list N) : N :=
       | Some (tr, stuck) =>
           if stuck then F_GEN
           else if negb (Nat.eqb (length tr) (length ops)) then F_GEN
-          else lcheck (case_cap case) (fun _ => false) (fun _ => false) 0 (fun _ => None) ops tr
+          else lcheck (case_cap case) (fun _ => false) 0 (fun _ => None) ops tr
       | None => F_GEN
       end
   | None, [0] => 0
@@ -578,8 +560,8 @@ Definition verdict_any (case trace : list N) : N :=
 
 Definition prop_ok (case trace : list N) : bool := verdict_any case trace =? 0.
 
-(* class 1: KNOWN_FINDINGS "slow close"; class 3: "the user's Reject drops the user's own open request
-   without an answer" (class 2, "failed substream id kept pending", was repaired: no longer a class) *)
+(* class 3: "the user's Reject drops the user's own open request without an answer" (classes 1, "slow
+   close", and 2, "failed substream id kept pending", were repaired in the code: no longer classes) *)
 Definition known_class (case trace : list N) : N :=
   let v := verdict_any case trace in
-  if N.testbit v 0 then 0 else if N.testbit v 1 then 1 else if N.testbit v 3 then 3 else 0.
+  if N.testbit v 0 then 0 else if N.testbit v 3 then 3 else 0.
